@@ -52,14 +52,15 @@ class Check:
         path = os.path.join(self.work, f"t{self._n}-{cfg_id}-{subcmd}.ndjson")
         kw.setdefault("seed", self.seed)
         self.configs.add(cfg_id)
-        if may_die:
-            _, rc = build.drive_may_die(cfg_id, subcmd, path, **kw)
-            evs = read_ndjson_tolerant(path)
-            if rc != 0:
-                evs.append({"ev": "abort", "rc": rc, "cfg": cfg_id, "subcmd": subcmd})
-            return evs
-        build.drive(cfg_id, subcmd, path, **kw)
-        return read_ndjson(path)
+        # a process that dies in the code under test (signal, abort, escaped panic) is data: the trace gets an
+        # `abort` event, which no trace-spec action accepts.  Exit code 2 is the driver's own usage error.
+        _, rc = build.drive_may_die(cfg_id, subcmd, path, **kw)
+        if rc == 2:
+            raise ToolError(f"driver {subcmd} ({cfg_id}) reported a usage/feature error (exit 2)")
+        evs = read_ndjson_tolerant(path)
+        if rc != 0:
+            evs.append({"ev": "abort", "rc": rc, "cfg": cfg_id, "subcmd": subcmd})
+        return evs
 
     def account(self, events):
         self.events += len(events)
